@@ -27,6 +27,20 @@ import (
 
 func genDownOps(t *rapid.T, m *lsw.GenModel, kind string) []lsw.Op {
 	var ops []lsw.Op
+	if rapid.IntRange(0, 4).Draw(t, "multiRestart") == 0 {
+		// the WAL is checkpointed and restarted several times in a row while litestream is down, each generation
+		// short (it stays below the old cursor) and rewriting different rows; optionally with missed work first
+		for i, n := 0, rapid.IntRange(2, 3).Draw(t, "restarts"); i < n; i++ {
+			a := 2
+			if i == 0 && rapid.IntRange(0, 3).Draw(t, "missedFirst") == 0 {
+				a = rapid.IntRange(0, 1).Draw(t, "missedKind")
+			}
+			ops = append(ops, lsw.Op{K: "walrestart",
+				M: rapid.SampledFrom([]string{"PASSIVE", "PASSIVE", "FULL", "RESTART", "TRUNCATE"}).Draw(t, "mode"),
+				N: rapid.SampledFrom([]int{0, 0, 3}).Draw(t, "relation"), A: a, B: rapid.IntRange(0, 80).Draw(t, "rows")})
+		}
+		return ops
+	}
 	n := rapid.IntRange(1, 6).Draw(t, "downSteps")
 	for i := 0; i < n; i++ {
 		r := rapid.IntRange(0, 99).Draw(t, "downOp")
@@ -41,9 +55,11 @@ func genDownOps(t *rapid.T, m *lsw.GenModel, kind string) []lsw.Op {
 		case r < 50:
 			ops = append(ops, lsw.Op{K: "update", T: 0, A: rapid.IntRange(0, 50).Draw(t, "a"), B: rapid.IntRange(50, 100).Draw(t, "b")})
 		case r < 75:
+			// A: work missed in the old generation before the checkpoint (0 growth, 1 in place, 2 none);
+			// N: length of the new generation relative to the old cursor; B: which rows the new generation rewrites
 			ops = append(ops, lsw.Op{K: "walrestart",
 				M: rapid.SampledFrom([]string{"FULL", "RESTART", "TRUNCATE", "PASSIVE"}).Draw(t, "mode"),
-				N: rapid.IntRange(0, 2).Draw(t, "relation"), A: rapid.IntRange(0, 1).Draw(t, "inplace")})
+				N: rapid.IntRange(0, 3).Draw(t, "relation"), A: rapid.IntRange(0, 2).Draw(t, "inplace"), B: rapid.IntRange(0, 80).Draw(t, "rows")})
 		case r < 82:
 			ops = append(ops, lsw.Op{K: "closeall"})
 		case r < 88:
@@ -370,10 +386,11 @@ func runDownOp(w *lsw.World, d lsw.Op, saved *lsw.SavedCopy, ep *episodeObs, mis
 	switch d.K {
 	case "walrestart":
 		// optional missed work in the old generation, then a checkpoint, then a new generation of a chosen length
-		if d.A == 1 {
+		switch d.A {
+		case 1:
 			w.AppStep(lsw.Op{K: "update", T: 0, A: 0, B: 100})
 			*missedInPlace = true
-		} else {
+		case 0:
 			w.AppStep(lsw.Op{K: "insert", T: 0, N: 2, S: 1})
 		}
 		w.AppStep(lsw.Op{K: "appckpt", M: d.M})
@@ -383,9 +400,11 @@ func runDownOp(w *lsw.World, d lsw.Op, saved *lsw.SavedCopy, ep *episodeObs, mis
 			target = ep.OldFrames
 		case 2:
 			target = ep.OldFrames + 3
+		case 3:
+			target = ep.OldFrames / 2
 		}
 		for k := 0; k < 200; k++ {
-			w.AppStep(lsw.Op{K: "update", T: 0, A: 0, B: 30})
+			w.AppStep(lsw.Op{K: "update", T: 0, A: d.B, B: d.B + 20})
 			if n, _ := w.WALFrames(); n >= target {
 				break
 			}
